@@ -17,7 +17,9 @@ Transcribed from (snapshot ef0888e + fix commits):
                      (queue → buffer, write at size B, flush request, ticker, stopping), stopOut = flush(); abort()
   * alert.go / alert/topics.go  runAlert: registerDeleteHookForTask, consume (event → bufHandler.Handle,
                      non-blocking, queue of H events), then CloseTopic (bufHandler.Close: close(events), wait
-                     for the handler goroutine to drain) — on the error path the topic is NOT closed
+                     for the handler goroutine to drain) — also on the error path since repair d61e6a5
+                     (`Cfg.alertLeak`/`Cfg.hookLock` = true give the code before the repairs, for the
+                     counterexample theorems)
   * http_post.go     doPost synchronously, then forward          (kind `post`)
   * udf.go           stopUDF = udf.Abort: the reader goroutine stops reading its input edge      (kind `udf`)
   * kapacitor_loopback.go  Point → TaskMaster.WriteKapacitorPoint → the SAME write_points edge    (kind `loop`)
@@ -83,7 +85,8 @@ inductive NAct where
 /-- What a node action needs to know about the TaskMaster. -/
 structure Env where
   cap : Nat
-  hookLock : Bool        -- registerDeleteHookForTask takes tm.mu (the unrepaired code)
+  hookLock : Bool        -- registerDeleteHookForTask takes tm.mu (code before repair 97356b1)
+  alertLeak : Bool       -- a failed alert node returns without CloseTopic (code before repair d61e6a5)
   tmLockFree : Bool      -- tm.mu is neither held for writing nor for reading
   ingestSpace : Bool     -- the write_points edge has a free slot
   writesClosed : Bool    -- TaskMaster.writesClosed
@@ -166,7 +169,8 @@ def nodeStep (env : Env) (a : NAct) (nd : Nd) (child : Option Nd) : Option NRes 
   | .closeOut =>
     match nd.kind with
     | .alert _ =>
-      if !nd.done ∧ nd.hand = 0 ∧ nd.inq = 0 ∧ nd.inClosed ∧ !nd.failed ∧ nd.inited ∧ !nd.stopping then some ⟨{ nd with stopping := true }, child, false⟩ else none
+      if !nd.done ∧ ((nd.hand = 0 ∧ nd.inq = 0 ∧ nd.inClosed ∧ !nd.failed) ∨ (nd.failed ∧ !env.alertLeak)) ∧ nd.inited ∧ !nd.stopping then
+        some ⟨{ nd with stopping := true }, child, false⟩ else none
     | _ => none
   | .exit =>
     let fin : Bool :=
@@ -174,8 +178,13 @@ def nodeStep (env : Env) (a : NAct) (nd : Nd) (child : Option Nd) : Option NRes 
       | .alert _ => nd.hand = 0 ∧ nd.inq = 0 ∧ nd.inClosed ∧ nd.helperDone
       | .udf => nd.hand = 0 ∧ ((nd.inq = 0 ∧ nd.inClosed) ∨ nd.stopping)
       | _ => nd.hand = 0 ∧ nd.inq = 0 ∧ nd.inClosed
+    let failFin : Bool :=
+      match nd.kind with
+      | .alert _ => env.alertLeak ∨ nd.helperDone     -- repaired code: CloseTopic also on the error path
+      | _ => true
     if nd.done then none
-    else if nd.failed then some ⟨{ nd with done := true, inAborted := true }, child.map closeIn, false⟩
+    else if nd.failed then
+      if failFin then some ⟨{ nd with done := true, inAborted := true }, child.map closeIn, false⟩ else none
     else if fin then some ⟨{ nd with done := true }, child.map closeIn, false⟩
     else none
 
@@ -216,7 +225,8 @@ inductive Ph where
 structure Cfg where
   cap : Nat              -- edge buffer size (defaultEdgeBufferSize = 1000 in the code)
   viaClose : Bool        -- TaskMaster.Close (Drain first) instead of StopTask/DeleteTask
-  hookLock : Bool        -- AlertNode registers its delete hook under tm.mu (true = code before the repair)
+  hookLock : Bool        -- AlertNode registers its delete hook under tm.mu (true = code before repair 97356b1)
+  alertLeak : Bool       -- a failed AlertNode does not close its topic (true = code before repair d61e6a5)
   deriving DecidableEq, Repr, Inhabited
 
 structure State where
@@ -265,7 +275,7 @@ def Ph.wantsLock : Ph → Bool
 def afterWait (n i : Nat) : Ph := if i + 1 < n then .stopF (i + 1) else .wgWait
 
 def env (cfg : Cfg) (s : State) : Env :=
-  { cap := cfg.cap, hookLock := cfg.hookLock, tmLockFree := !s.lockHeld ∧ !s.forkRL,
+  { cap := cfg.cap, hookLock := cfg.hookLock, alertLeak := cfg.alertLeak, tmLockFree := !s.lockHeld ∧ !s.forkRL,
     ingestSpace := s.ingest + s.ingestL < cfg.cap, writesClosed := s.ingestClosed }
 
 /-- The stopping goroutine. -/
